@@ -15,7 +15,8 @@ Translated (arithmetic, as written):
   LaplaceTransformer.derivative_undef  func1(s) * s**order - sum_m s**(order-m-1) * v^(m)(0)
   LaplaceTransformer.integral        `const2 * X / s`, `const2 * F1 * F2`
 Pinned (compared verbatim after `ast.unparse`; their behaviour is the hand model LaplaceModel.v, which the
-correspondence run ties to the code): the factor-parsing statements of sin_cos, the guards of func /
+correspondence run ties to the code): the whole body of `integral` (limits / integrand tests of its three returns),
+the factor-parsing statements of sin_cos, the guards of func /
 derivative_undef, the order of the branch tests of `term`, `LaplaceTransformer.key`,
 `LaplaceTransformer.clip_heaviside` and the single-function branch of term,
 `UnilateralForwardTransformer.remove_heaviside/doit`, `utils.scale_shift` coefficient indices.
@@ -165,6 +166,53 @@ DOIT_BODY = ("if expr.is_Piecewise and expr.args[0].args[1].has(var >= 0):\n    
              "self.cache[key] = result\nreturn const * result")
 
 
+# the whole of LaplaceTransformer.integral: which limits / integrand shapes reach which return (hand model: integral_model,
+# LInteg = second return, LIntegA = first return, LConv = third return); the three returns themselves are translated below
+INTEGRAL_BODY = (
+    'const, expr = factor_const(expr, t)\n'
+    'if len(expr.args) != 2:\n'
+    "    self.error('Expecting two args')\n"
+    'integrand = expr.args[0]\n'
+    'if not isinstance(expr, sym.Integral):\n'
+    "    self.error('Expecting integral')\n"
+    'if len(expr.args[1]) != 3:\n'
+    "    self.error('Require definite integral')\n"
+    'var = expr.args[1][0]\n'
+    'limits = expr.args[1][1:]\n'
+    'const2, expr2 = factor_const(integrand, var)\n'
+    'if expr2.is_Function and expr2.args[0] == t - var and (limits[0] == 0) and (limits[1] == sym.oo):\n'
+    '    return const2 * self.term(expr2.subs(t - var, t), t, s) / s\n'
+    'if not limits[0].is_positive and limits[1] == t:\n'
+    '    if isinstance(expr2, AppliedUndef):\n'
+    '        if expr2.args[0] == expr.args[1][0]:\n'
+    '            return const2 * self.func(expr2, expr2.args[0], s) / s\n'
+    'if limits[0].is_positive:\n'
+    "    self.error('Cannot handle lower limit %s' % limits[0])\n"
+    'if limits[1] < t:\n'
+    "    self.error('Cannot handle upper limit %s' % limits[1])\n"
+    'if len(expr.args) != 2 or not expr2.is_Mul or (not expr2.args[0].is_Function) or (not expr2.args[1].is_Function):\n'
+    "    self.error('Need integral of product of two functions')\n"
+    'f1 = expr2.args[0]\n'
+    'f2 = expr2.args[1]\n'
+    'def f_of_var(x):\n'
+    '    syms = x.free_symbols\n'
+    '    return var in syms and t not in syms\n'
+    'def f_of_t_minus_var(x):\n'
+    "    w = sym.symbols('wxx', real=True)\n"
+    '    xx = x.subs(t, w + var)\n'
+    '    xx = sym.simplify(xx)\n'
+    '    syms = xx.free_symbols\n'
+    '    return w in syms and var not in syms\n'
+    'if f_of_t_minus_var(f2) and f_of_var(f1):\n'
+    '    F1 = self.term(f1, var, s)\n'
+    '    F2 = self.term(f2.subs(t - var, t), t, s)\n'
+    'elif f_of_t_minus_var(f1) and f_of_var(f2):\n'
+    '    F1 = self.term(f1.subs(t - var, t), t, s)\n'
+    '    F2 = self.term(f2, var, s)\n'
+    'else:\n'
+    "    self.error('Cannot recognise convolution')\n"
+    'return const2 * F1 * F2\n')
+
 CLIP_BODY = N("def value(e):\n    try:\n        (scale, shift) = scale_shift(e.args[0], t)\n    except ValueError:\n        return e\n"
               "    if scale.is_positive and shift.is_positive:\n        return sym.S.One\n    return e\n"
               "return expr.replace(lambda e: isinstance(e, sym.Heaviside), value)")
@@ -174,6 +222,7 @@ TERM_TESTS = [N(x) for x in TERM_TESTS]
 KEY_RETURN = N(KEY_RETURN)
 REMOVE_HEAVISIDE = N(REMOVE_HEAVISIDE)
 DOIT_BODY = N(DOIT_BODY)
+INTEGRAL_BODY = N(INTEGRAL_BODY)
 
 
 class Translator:
@@ -505,6 +554,15 @@ class Translator:
     # ---- integral ----------------------------------------------------------------------------
     def tr_integral(self):
         fn = self.meth['integral']
+        if [a.arg for a in fn.args.args] != ['self', 'expr', 't', 's']:
+            fail(fn, 'unexpected signature of integral')
+        got = [ln for ln in '\n'.join(U(x) for x in self.body(fn)).split('\n') if ln.strip()]
+        want = [ln for ln in INTEGRAL_BODY.split('\n') if ln.strip()]
+        if got != want:
+            for i, (a, b) in enumerate(zip(got + [None] * (len(want) + 1), want + [None] * (len(got) + 1))):
+                if a != b:
+                    break
+            fail(fn, 'LaplaceTransformer.integral changed (line %d of its body: found %r, expected %r)' % (i + 1, a, b))
         rets = [n for n in ast.walk(fn) if isinstance(n, ast.Return) and n.value is not None]
         # nested helper functions return booleans; keep returns of arithmetic expressions only
         arith = sorted([r for r in rets if isinstance(r.value, ast.BinOp)], key=lambda r: r.lineno)
